@@ -445,3 +445,58 @@ def std_replay(path):
     print(json.dumps({k: rec.get(k) for k in rec if k != 'spec'}, indent=1, default=str))
     print(rec.get('spec', ''))
     return 0
+
+
+# ------------------------------------------------------------------ stream-machine checks
+def stream_worker(case):
+    import streamprog
+    wd = os.path.join(_ROOT, "c%s" % case['id'])
+    try:
+        res = streamprog.eval_stream_case(_FLEX, wd, case)
+    except Exception as ex:
+        res = {'problems': [('harness-error', repr(ex))], 'lockstep': [], 'streams': []}
+    res['id'] = case['id']
+    return res
+
+
+def judge_stream(ck, flex, scratch, cases, results, stats):
+    for c, r in zip(cases, results):
+        c['text'] = r.get('text', '') or c.get('text', '')
+    for c, r in zip(cases, results):
+        for kind, msg in r['problems']:
+            stats.setdefault('problem_kinds', {})
+            stats['problem_kinds'][kind] = stats['problem_kinds'].get(kind, 0) + 1
+        probs = [p for p in r['problems'] if p[0] != 'inconclusive']
+        if any(p[0] == 'inconclusive' for p in r['problems']):
+            stats['inconclusive'] = stats.get('inconclusive', 0) + 1
+        if not probs:
+            continue
+        kind, msg = probs[0]
+        noinput = kind in ('harness-error', 'driver-error')
+        what = {"event-mismatch": "the scanner's events differ from the stream machine (documented behaviour)",
+                "compile-error": "generated scanner does not compile",
+                "flex-error": "flex refuses a documented program"}.get(kind, kind)
+        key = "%s:%s" % (kind, hashlib.sha256((c['text'] + str(c.get('sources'))).encode()).hexdigest()[:10])
+        if kind == 'event-mismatch':
+            allops = [o[0] for ops in list(c.get('acts', {}).values()) for o in ops]
+            if 'array' in (c.get('extra_options') or []) and 'more' in allops and 'less' in allops:
+                key = "array-yyless-after-yymore"      # KNOWN_FINDINGS.json: identified by %array + yymore + yyless
+        ck.violation(key, "%s: %s" % (what, msg[:400]),
+                     {'spec': c['text'], 'flex_opts': c['flex_opts'], 'backend': c['backend'], 'focus': c.get('focus'),
+                      'cc_extra': c.get('cc_extra'),
+                      'sources_hex': [[bytes(w).hex() for w in src] for src in c.get('sources', [])][:3],
+                      'detail': [list(p) for p in probs[:3]],
+                      'correspondence': 'coq/Stream.v (sm_run, extracted) vs compiled scanner' if noinput else None,
+                      'how': "flex <opts> -o s.c s.l; cc; ./s source1 [source2 ...]; lines T rule yyleng fnv(yytext) yystart() yylineno yyatbol(), "
+                             "I yyinput-value, P yy_top_state, E <<EOF>> action of condition, R yylex return"},
+                     no_input=noinput)
+
+
+def stream_main(prop, tier, props_file, build_cases, rule, assumptions):
+    global judge
+    orig = judge
+    judge = judge_stream
+    try:
+        return standard_main(prop, tier, props_file, build_cases, rule, assumptions, worker=stream_worker)
+    finally:
+        judge = orig
